@@ -101,7 +101,7 @@ Record centry := mkEntry {
 }.
 
 Definition znth0 (i : Z) (l : list Z) : Z := nth (Z.to_nat i) l 0.
-Definition zslice (i j : Z) (l : list Z) : list Z := slice (Z.to_nat i) (Z.to_nat j) l.
+Definition dslice (i j : Z) (l : list Z) : list Z := slice (Z.to_nat i) (Z.to_nat j) l.
 
 Definition sanitize (data : list Z) : list Z :=
   let n := Z.to_nat rec_sanitized_count in
@@ -115,7 +115,7 @@ Definition record_of_bytes (data : list Z) : list Z :=
   let dflag := data_to_byte (if data_from_byte_is_ascii (znth0 rec_data_index data) then 1 else 0) in
   let first := znth0 rec_first_index data in
   let last := rec_last_of (znth0 rec_last_hi_index data) (znth0 rec_last_lo_index data) in
-  sanitize (zslice rec_name_lo rec_name_hi data ++ zslice rec_ext_lo rec_ext_hi data
+  sanitize (dslice rec_name_lo rec_name_hi data ++ dslice rec_ext_lo rec_ext_hi data
             ++ [rec_byte11 kind dflag first last; rec_byte12 kind dflag first last; rec_byte13 kind dflag first last;
                 rec_byte14 kind dflag first last; rec_byte15 kind dflag first last]).
 
@@ -243,7 +243,7 @@ Fixpoint write_slices (fuel : nat) (sd : side) (bat : list Z) (alloc : list Z) (
                   end)
           else bat in
         let si := sec_of_block b cur_sector in
-        let sd' := set_sec sd si (set_payload (get_sec sd si) (zslice idx (idx + slice_step) content)) in
+        let sd' := set_sec sd si (set_payload (get_sec sd si) (dslice idx (idx + slice_step) content)) in
         let cur_block' := if cur_sector =? last_sector_of_block then S cur_block else cur_block in
         write_slices fuel' sd' bat' alloc content usage_last_block cur_block' ((cur_sector + 1) mod sectors_per_block) (idx + slice_step) len
       end
@@ -314,17 +314,17 @@ Definition write_file (sd : side) (content name ext : list Z) (kind dtype : Z) :
 
 (* ---------------- listeners ---------------- *)
 Inductive proc := PListing | PExtracting | PUpdating.
-Record lst := mkL { l_sides : Z; l_files_side : Z; l_files_all : Z; l_blocks_side : Z; l_blocks_all : Z;
+Record dlst := mkL { l_sides : Z; l_files_side : Z; l_files_all : Z; l_blocks_side : Z; l_blocks_all : Z;
                     l_reset : bool; l_need_nl : bool }.
-Definition lst0 : lst := mkL 0 0 0 0 0 false false.
+Definition dlst0 : dlst := mkL 0 0 0 0 0 false false.
 Definition is_listing (p : proc) : bool := match p with PListing => true | _ => false end.
 
 Definition nl : list Z := [10].
 Definition plural (n : Z) : list Z := if n =? 1 then [] else str "s".
-Definition ret_line (s : lst) : list Z * lst :=
+Definition ret_line (s : dlst) : list Z * dlst :=
   if l_need_nl s then (nl, mkL (l_sides s) (l_files_side s) (l_files_all s) (l_blocks_side s) (l_blocks_all s) (l_reset s) false)
   else ([], s).
-Definition set_need (s : lst) (b : bool) : lst :=
+Definition set_need (s : dlst) (b : bool) : dlst :=
   mkL (l_sides s) (l_files_side s) (l_files_all s) (l_blocks_side s) (l_blocks_all s) (l_reset s) b.
 (* str.rjust / ljust through format specs *)
 Definition rjust (w : Z) (s : list Z) : list Z := repeat 32 (Z.to_nat (w - zlen s)) ++ s.
@@ -333,14 +333,14 @@ Definition ljust8 (s : list Z) : list Z := s ++ repeat 32 (Z.to_nat (8 - zlen s)
    printed tenth of a percent is a correct rounding of it *)
 Definition pct (num den : Z) : list Z := str "(%" ++ dec num ++ str "/" ++ dec den ++ str "%)".
 
-Definition on_begin_side (verbose : bool) (p : proc) (s : lst) (n : Z) : list Z * lst :=
-  let s1 := if l_reset s then lst0 else s in
+Definition on_begin_side (verbose : bool) (p : proc) (s : dlst) (n : Z) : list Z * dlst :=
+  let s1 := if l_reset s then dlst0 else s in
   let s2 := mkL (l_sides s1 + 1) 0 (l_files_all s1) 0 (l_blocks_all s1) (l_reset s1) (l_need_nl s) in
   let '(o, s3) := ret_line s2 in
   let sep := if (verbose || negb (is_listing p)) && (1 <? l_sides s3) then str "---" ++ nl else [] in
   (o ++ sep ++ str "Side " ++ dec n ++ nl, s3).
 
-Definition on_end_side (verbose : bool) (p : proc) (s : lst) (usage : Z * Z * Z) : list Z * lst :=
+Definition on_end_side (verbose : bool) (p : proc) (s : dlst) (usage : Z * Z * Z) : list Z * dlst :=
   let '(o, s1) := ret_line s in
   let '(used, reserved, free) := usage in
   let nf := l_files_side s1 in
@@ -365,8 +365,8 @@ Definition kind_name (k : Z) : list Z :=
 Definition data_name (k : Z) (ascii : bool) : list Z :=
   if ascii then str "ASCII" else if k =? 0 then str "TOKEN" else str "BINARY".
 
-Definition on_begin_file (verbose : bool) (p : proc) (s : lst) (status : Z) (name ext : list Z) (kind : Z) (ascii : bool)
-  : list Z * lst :=
+Definition on_begin_file (verbose : bool) (p : proc) (s : dlst) (status : Z) (name ext : list Z) (kind : Z) (ascii : bool)
+  : list Z * dlst :=
   let '(o, s1) := ret_line s in
   let listing := is_listing p in
   let body :=
@@ -382,7 +382,7 @@ Definition on_begin_file (verbose : bool) (p : proc) (s : lst) (status : Z) (nam
       ++ (if listing then [] else str "...") in
   (o ++ body, set_need s1 true).
 
-Definition on_end_file (verbose : bool) (p : proc) (s : lst) (status : Z) (size blocks : Z) : list Z * lst :=
+Definition on_end_file (verbose : bool) (p : proc) (s : dlst) (status : Z) (size blocks : Z) : list Z * dlst :=
   let alive := status =? entry_ALIVE in
   let s1 := if alive then mkL (l_sides s) (l_files_side s + 1) (l_files_all s + 1) (l_blocks_side s + blocks) (l_blocks_all s + blocks) (l_reset s) (l_need_nl s)
             else s in
@@ -395,10 +395,10 @@ Definition on_end_file (verbose : bool) (p : proc) (s : lst) (status : Z) (size 
     if is_listing p then ret_line s1
     else ((if alive then str "ok" else str "ignored") ++ nl, set_need s1 false).
 
-Definition on_message (indent : bool) (s : lst) (msg : list Z) : list Z * lst :=
+Definition on_message (indent : bool) (s : dlst) (msg : list Z) : list Z * dlst :=
   ((if indent then str "  " else []) ++ msg ++ nl, set_need s false).
 
-Definition on_done (verbose : bool) (p : proc) (s : lst) : list Z * lst :=
+Definition on_done (verbose : bool) (p : proc) (s : dlst) : list Z * dlst :=
   let s1 := mkL (l_sides s) (l_files_side s) (l_files_all s) (l_blocks_side s) (l_blocks_all s) true (l_need_nl s) in
   let '(o, s2) := ret_line s1 in
   let body :=
@@ -411,9 +411,8 @@ Definition on_done (verbose : bool) (p : proc) (s : lst) : list Z * lst :=
   (o ++ body, s2).
 
 (* ---------------- outcome ---------------- *)
-Inductive effect := WriteFile (path : list Z) (content : list Z) | MkDir (path : list Z).
-Record outcome := mkOutcome { o_status : Z; o_text : list Z; o_effects : list effect; o_crash : option err }.
-Definition crashed (text : list Z) (fx : list effect) (e : err) : outcome := mkOutcome 1 text fx (Some e).
+Record doutcome := mkDOutcome { d_status : Z; d_text : list Z; d_effects : list effect; d_crash : option err }.
+Definition crashed (text : list Z) (fx : list effect) (e : err) : doutcome := mkDOutcome 1 text fx (Some e).
 
 (* ---------------- enumerator / extractor ---------------- *)
 Definition side_dir (target : list Z) (i : nat) : list Z := path_join target (str "side" ++ dec (Z.of_nat i)).
@@ -422,7 +421,7 @@ Definition extracted_name (e : centry) : list Z :=
 
 (* one side of list (extract = false) or extract (true) *)
 Fixpoint side_files (verbose extract : bool) (p : proc) (sd : side) (dir : list Z) (es : list centry)
-  (s : lst) (text : list Z) (fx : list effect) : list Z * list effect * lst * option err :=
+  (s : dlst) (text : list Z) (fx : list effect) : list Z * list effect * dlst * option err :=
   match es with
   | [] => (text, fx, s, None)
   | e :: r =>
@@ -446,9 +445,9 @@ Fixpoint side_files (verbose extract : bool) (p : proc) (sd : side) (dir : list 
   end.
 
 Fixpoint read_sides (verbose extract : bool) (p : proc) (target : list Z) (sides : list side) (i : nat)
-  (s : lst) (text : list Z) (fx : list effect) : outcome :=
+  (s : dlst) (text : list Z) (fx : list effect) : doutcome :=
   match sides with
-  | [] => let '(o, _) := on_done verbose p s in mkOutcome 0 (text ++ o) fx None
+  | [] => let '(o, _) := on_done verbose p s in mkDOutcome 0 (text ++ o) fx None
   | sd :: r =>
     let '(o0, s0) := on_begin_side verbose p s (Z.of_nat i) in
     let text0 := text ++ o0 in
@@ -469,28 +468,28 @@ Fixpoint read_sides (verbose extract : bool) (p : proc) (target : list Z) (sides
     end
   end.
 
-Definition disk_list (is_fd verbose : bool) (raw : list Z) : outcome :=
+Definition disk_list (is_fd verbose : bool) (raw : list Z) : doutcome :=
   match load_image is_fd raw with
   | Err e => crashed [] [] e
-  | Ok img => read_sides verbose false PListing [] img 0 lst0 [] []
+  | Ok img => read_sides verbose false PListing [] img 0 dlst0 [] []
   end.
 (* targetDir = args.into if given (announced on stdout) else dirname(archive) *)
-Definition disk_extract (is_fd verbose : bool) (into : option (list Z)) (archive : list Z) (raw : list Z) : outcome :=
+Definition disk_extract (is_fd verbose : bool) (into : option (list Z)) (archive : list Z) (raw : list Z) : doutcome :=
   match load_image is_fd raw with
   | Err e => crashed [] [] e
   | Ok img =>
     let target := match into with Some d => d | None => dirname archive end in
     let pre := match into with Some d => str "has into : " ++ d ++ nl | None => [] end in
-    read_sides verbose true PExtracting target img 0 lst0 pre []
+    read_sides verbose true PExtracting target img 0 dlst0 pre []
   end.
 
 (* ---------------- injector ---------------- *)
-Record istate := mkI { i_img : image; i_cur : nat; i_lst : lst; i_text : list Z }.
+Record istate := mkI { i_img : image; i_cur : nat; i_lst : dlst; i_text : list Z }.
 Definition has_controller (st : istate) : bool := Nat.ltb (i_cur st) (Z.to_nat side_count).
 Definition cur_side (st : istate) : side := nth (i_cur st) (i_img st) [].
 Definition set_cur_side (st : istate) (sd : side) : istate :=
   mkI (firstn (i_cur st) (i_img st) ++ [sd] ++ skipn (S (i_cur st)) (i_img st)) (i_cur st) (i_lst st) (i_text st).
-Definition emit (st : istate) (o : list Z * lst) : istate := mkI (i_img st) (i_cur st) (snd o) (i_text st ++ fst o).
+Definition emit (st : istate) (o : list Z * dlst) : istate := mkI (i_img st) (i_cur st) (snd o) (i_text st ++ fst o).
 
 (* the retry loop of DiskImageContentInjector.writeFile; fuel = sides + 1 *)
 Fixpoint inject_file (fuel : nat) (verbose : bool) (st : istate) (name ext : list Z) (kind dtype : Z) (data : list Z)
@@ -589,11 +588,11 @@ Fixpoint finish_sides (fuel : nat) (verbose : bool) (st : istate) : res istate :
     else Ok st
   end.
 
-Definition inject_perform (is_fd verbose init : bool) (fs : fsmap) (archive : list Z) (img : image) (srcs : list (list Z)) : outcome :=
+Definition inject_perform (is_fd verbose init : bool) (fs : fsmap) (archive : list Z) (img : image) (srcs : list (list Z)) : doutcome :=
   if Nat.ltb (length img) (Z.to_nat side_count) then crashed [] [] EIndex     (* image.sides[i] for i in range(4) *)
   else
     let img0 := if init then map init_fs (firstn (Z.to_nat side_count) img) ++ skipn (Z.to_nat side_count) img else img in
-    let st0 := emit (mkI img0 0 lst0 []) (on_begin_side verbose PUpdating lst0 0) in
+    let st0 := emit (mkI img0 0 dlst0 []) (on_begin_side verbose PUpdating dlst0 0) in
     match inject_sources verbose fs st0 srcs with
     | Err e => crashed (i_text st0) [] e          (* text printed before the crash is not compared *)
     | Ok st1 =>
@@ -608,16 +607,16 @@ Definition inject_perform (is_fd verbose init : bool) (fs : fsmap) (archive : li
       | Err e => crashed (i_text st1) [] e
       | Ok st2 =>
         let '(o, _) := on_done verbose PUpdating (i_lst st2) in
-        mkOutcome 0 (i_text st2 ++ o) [WriteFile archive (save_image is_fd (i_img st2))] None
+        mkDOutcome 0 (i_text st2 ++ o) [WriteFile archive (save_image is_fd (i_img st2))] None
       end
     end.
 
-Definition disk_create (is_fd verbose : bool) (fs : fsmap) (archive : list Z) (srcs : list (list Z)) : outcome :=
+Definition disk_create (is_fd verbose : bool) (fs : fsmap) (archive : list Z) (srcs : list (list Z)) : doutcome :=
   match load_image is_fd [] with
   | Err e => crashed [] [] e
   | Ok img => inject_perform is_fd verbose true fs archive img srcs
   end.
-Definition disk_add (is_fd verbose : bool) (fs : fsmap) (archive : list Z) (raw : list Z) (srcs : list (list Z)) : outcome :=
+Definition disk_add (is_fd verbose : bool) (fs : fsmap) (archive : list Z) (raw : list Z) (srcs : list (list Z)) : doutcome :=
   match load_image is_fd raw with
   | Err e => crashed [] [] e
   | Ok img => inject_perform is_fd verbose false fs archive img srcs
